@@ -108,6 +108,8 @@ func (o *evOp) proto() string {
 		return fmt.Sprintf("know:%d:%s", o.Key, hx(o.Bytes))
 	case "mutate":
 		return "mutate:" + strings.ReplaceAll(o.D.Line(), " ", "&")
+	case "reattach":
+		return "reattach"
 	default:
 		return fmt.Sprintf("verify:%d", o.Key)
 	}
@@ -152,6 +154,8 @@ func (o *evOp) exec(ev *psa.Evidence) evStep {
 			} else {
 				ev.Claims = n
 			}
+		case "reattach":
+			err = ev.SetClaims(ev.Claims)
 		case "sign":
 			st.token, err = ev.Sign(o.signer())
 		case "vsign":
